@@ -367,7 +367,7 @@ def t_matrix(rng, gid, configured=None, theme=False):
 
 def t_simitem(rng, gid, configured=None, tag=True):
     configured = maybe(rng, 0.4) if configured is None else configured
-    cfg = {'name': gid + '.sim', 'tag': tag,
+    cfg = {'name': gid + '.sim', 'tag': tag, 'shared': maybe(rng, 0.25),
            'table': {'a': {'a': 1, 'A': 0.5, 'b': 0}, 'b': {'b': 1, 'a': 0.25}, 'c': {'c': 1, 'C': 1.0 / 3}}}
     common_opts(rng, cfg)
     if configured:
@@ -391,7 +391,7 @@ def _sub_for_list(rng, gid, allow_ref=None):
     if r < 0.7:
         name = gid + '.sub'
         sub = {'__grader__': {'cls': 'SimItemGrader',
-                              'cfg': {'name': name,
+                              'cfg': {'name': name, 'shared': maybe(rng, 0.25),
                                       'table': {'a': {'a': 1, 'A': 0.5}, 'b': {'b': 1, 'B': 0.25},
                                                 'c': {'c': 1, 'C': 1.0 / 3}, 'd': {'d': 1, 'a': 0.1}}}}}
         return (sub, {'right': ['a', 'b', 'c', 'd'], 'wrong': ['x', 'A', 'B', 'C'], 'bad': []},
